@@ -62,8 +62,14 @@ impl<T: Write + Send + 'static> Worker<T> {
             let handle_result = self.handle_try_recv(&try_recv_result);
             worker_state = handle_result?;
         }
-        self.writer.flush()?;
-        Ok(worker_state)
+        let flushed = self.writer.flush();
+        match worker_state {
+            // A failed flush must not hide that the channel has shut down or
+            // disconnected: that message has been consumed, and returning the
+            // error would leave the worker waiting for it forever.
+            WorkerState::Shutdown | WorkerState::Disconnected => Ok(worker_state),
+            _ => flushed.map(|_| worker_state),
+        }
     }
 
     /// Creates a worker thread that processes a channel until it's disconnected
